@@ -1,32 +1,62 @@
 #!/venv/bin/python
-"""Apply each behaviour-preserving refactoring (refactorings/<tag>/rNN.diff) to /repo transiently
-and run every claimed check: any exit code other than 0 is a false alarm (1) or an unmodelled
-idiom (2)."""
-import json, os, subprocess, glob, sys
+"""Apply each behaviour-preserving refactoring (refactorings/<tag>/rNN.diff) to its own scratch
+copy of /repo's tracked elementpath/ tree (under a mkdtemp directory, removed afterwards) and run
+every claimed check against the copy (VERIF_REPO), from a snapshot of /verif taken at start: any
+exit code other than 0 is a false alarm (1) or an unmodelled idiom (2). /repo is not touched."""
 import concurrent.futures as cf
+import glob
+import json
+import os
+import shutil
+import subprocess
+import sys
+import tempfile
+
 V = '/verif'
 checks = [c['property_id'] for c in json.load(open(f'{V}/MANIFEST.json'))['checks']]
-rows = []
 src = sys.argv[1] if len(sys.argv) > 1 else f'{V}/refactorings'
-for d in sorted(glob.glob(f'{src}/*/r*.diff')):
+work = tempfile.mkdtemp(prefix='verif-refmatrix-')
+snap = os.path.join(work, 'verif')
+os.makedirs(snap)
+for name in ('sa', 'known_findings.json', 'MANIFEST.json', 'selftest', 'seeded'):
+    p = os.path.join(V, name)
+    if os.path.isdir(p):
+        shutil.copytree(p, os.path.join(snap, name), ignore=shutil.ignore_patterns('__pycache__'))
+    else:
+        shutil.copy(p, os.path.join(snap, name))
+base = os.path.join(work, 'base')
+os.makedirs(base)
+subprocess.run('git -C /repo archive HEAD elementpath | tar -x -C ' + base, shell=True, check=True)
+
+
+def one(d):
     name = '/'.join(d.split('/')[-2:])
-    assert subprocess.run(['git', '-C', '/repo', 'diff', '--quiet']).returncode == 0, '/repo not clean'
-    if subprocess.run(['git', '-C', '/repo', 'apply', d]).returncode != 0:
-        rows.append((name, 'PATCH-STALE', [])); continue
+    tree = tempfile.mkdtemp(prefix='r-', dir=work)
     try:
-        def run(c):
-            r = subprocess.run(['/venv/bin/python', 'sa/check.py', c], cwd=V, capture_output=True,
-                               text=True, env=dict(os.environ, VERIF_NO_EVIDENCE='1'))
-            msg = [ln for ln in r.stdout.splitlines() if ': [R' in ln or 'ANALYSIS-ERROR' in ln][:2]
-            return c, r.returncode, msg
+        shutil.copytree(os.path.join(base, 'elementpath'), os.path.join(tree, 'elementpath'))
+        r = subprocess.run(['git', 'apply', '--unsafe-paths', '--directory', tree, d], cwd='/',
+                           capture_output=True, text=True)
+        if r.returncode != 0:
+            return name, 'PATCH-STALE', []
         bad = []
-        with cf.ThreadPoolExecutor(10) as ex:
-            for c, rc, msg in ex.map(run, checks):
-                if rc != 0:
-                    bad.append((c, rc, msg))
+        for c in checks:
+            r = subprocess.run(['/venv/bin/python', 'sa/check.py', c], cwd=snap,
+                               capture_output=True, text=True,
+                               env=dict(os.environ, VERIF_NO_EVIDENCE='1', VERIF_REPO=tree))
+            if r.returncode != 0:
+                msg = [ln for ln in r.stdout.splitlines()
+                       if ': [R' in ln or 'ANALYSIS-ERROR' in ln][:2]
+                bad.append((c, r.returncode, msg))
+        return name, 'silent' if not bad else 'ALARM', bad
     finally:
-        subprocess.run(['git', '-C', '/repo', 'checkout', '--', '.'])
-    rows.append((name, 'silent' if not bad else 'ALARM', bad))
+        shutil.rmtree(tree, ignore_errors=True)
+
+
+try:
+    with cf.ThreadPoolExecutor(int(os.environ.get('JOBS', '16'))) as ex:
+        rows = list(ex.map(one, sorted(glob.glob(f'{src}/*/r*.diff'))))
+finally:
+    shutil.rmtree(work, ignore_errors=True)
 for r in rows:
     print(f'{r[0]:14} {r[1]:8}', *[f'\n      {c} exit={rc} {m}' for c, rc, m in r[2]])
 print(sum(1 for r in rows if r[1] == 'silent'), '/', len(rows), 'silent')
